@@ -3,12 +3,16 @@
 
    The rows are parsed into trees and interpreted abstractly (path-insensitive: both branches of
    every if/switch, loops to a fixpoint, calls inlined by name with a depth bound): the abstract
-   state is what the goroutine holds — of mu: nothing / read / write, a FileData mutex or not —
+   state is what the goroutine holds — of mu: nothing / read / write, the NUMBER of FileData mutexes —
    and the stack of deferred unlocks of the current function.  Checked for every function of
-   the table, entered holding nothing:
-     - no unlock of a lock that is not held, no lock of mu while mu or a file mutex is held, no
-       lock of a file mutex while a file mutex is held (lock order mu < file, no nesting);
-     - every normal return (after its deferred unlocks) holds nothing;
+   the table, entered holding nothing (the helpers of MemMapFs that have no operation on mu of
+   their own and are called with mu write-locked: entered holding mu write-locked; at each call
+   site they are inlined in the caller's state anyway):
+     - no unlock of a lock that is not held, no lock of mu while mu or a file mutex is held; a
+       file mutex is taken while file mutexes are held ONLY with mu write-locked, and never more
+       than [cc_max_nest] deep (lock order mu < directory mutexes < the renamed entry's mutex;
+       nesting happens in Rename alone, and Renames are serialised by mu);
+     - every normal return (after its deferred unlocks) holds what was held at entry;
      - every explicit panic (log.Panic), after the deferred unlocks of ALL frames it unwinds,
        holds nothing.
    No proofs here; the check is evaluated in Props/C03.v. *)
@@ -49,9 +53,11 @@ Fixpoint parse (fuel : nat) (toks : list str) : list lt * list str :=
 Definition parse_row (s : str) : list lt := let toks := split_sp s [] in fst (parse (S (length toks)) toks).
 
 (* ---- abstract states ---- *)
-Record ast := mkA { a_mu : cc_hmu; a_f : bool; a_d : list cc_lk }.
+Record ast := mkA { a_mu : cc_hmu; a_f : nat; a_d : list cc_lk }.
 Definition ast_eqb (x y : ast) : bool :=
-  cc_hmu_eqb (a_mu x) (a_mu y) && Bool.eqb (a_f x) (a_f y) && cc_lks_eqb (a_d x) (a_d y).
+  cc_hmu_eqb (a_mu x) (a_mu y) && Nat.eqb (a_f x) (a_f y) && cc_lks_eqb (a_d x) (a_d y).
+(* the two parents, the directory whose children are re-keyed, the child *)
+Definition cc_max_nest : nat := 4.
 Fixpoint mem_ast (x : ast) (l : list ast) : bool :=
   match l with [] => false | y :: r => ast_eqb x y || mem_ast x r end.
 Definition add_ast (x : ast) (l : list ast) : list ast := if mem_ast x l then l else l ++ [x].
@@ -100,17 +106,18 @@ Definition classify (t : str) : tk :=
        end.
 
 (* one lock operation on an abstract state: (new state, violation?) *)
-Definition do_acq (l : cc_lk) (a : ast) : ast * bool :=
+Definition do_acq (maxnest : nat) (l : cc_lk) (a : ast) : ast * bool :=
   match l with
-  | LkW => (mkA HW (a_f a) (a_d a), negb (cc_hmu_eqb (a_mu a) HNone) || a_f a)
-  | LkR => (mkA HR (a_f a) (a_d a), negb (cc_hmu_eqb (a_mu a) HNone) || a_f a)
-  | LkF => (mkA (a_mu a) true (a_d a), a_f a)
+  | LkW => (mkA HW (a_f a) (a_d a), negb (cc_hmu_eqb (a_mu a) HNone) || Nat.ltb 0 (a_f a))
+  | LkR => (mkA HR (a_f a) (a_d a), negb (cc_hmu_eqb (a_mu a) HNone) || Nat.ltb 0 (a_f a))
+  | LkF => (mkA (a_mu a) (S (a_f a)) (a_d a),
+            (Nat.ltb 0 (a_f a) && negb (cc_hmu_eqb (a_mu a) HW)) || Nat.leb maxnest (a_f a))
   end.
 Definition do_rel (l : cc_lk) (a : ast) : ast * bool :=
   match l with
   | LkW => (mkA HNone (a_f a) (a_d a), negb (cc_hmu_eqb (a_mu a) HW))
   | LkR => (mkA HNone (a_f a) (a_d a), negb (cc_hmu_eqb (a_mu a) HR))
-  | LkF => (mkA (a_mu a) false (a_d a), negb (a_f a))
+  | LkF => (mkA (a_mu a) (pred (a_f a)) (a_d a), Nat.eqb (a_f a) 0)
   end.
 
 (* run the deferred unlocks of a frame: (state with no defers, violations) *)
@@ -132,6 +139,7 @@ Definition callee_rows (tab : list (str * str)) (name : str) : list str :=
 (* interpretation of a tree list from a set of states.  [depth] bounds the inlining of calls. *)
 Section Ana.
   Variable tab : list (str * str).
+  Variable maxnest : nat.     (* how many file mutexes may be held at a time (under mu write-locked) *)
 
   (* a call from state a: the callee runs in its own frame (no defers), then returns or panics *)
   Definition call_result (ana_fn : list lt -> list ast -> ares) (name : str) (a : ast) : ares :=
@@ -157,7 +165,7 @@ Section Ana.
       | [] => mkR sts [] [] 0
       | LTok t :: rest =>
         match classify t with
-        | TAcq l => let '(s1, e) := map_states (do_acq l) sts in
+        | TAcq l => let '(s1, e) := map_states (do_acq maxnest l) sts in
                     let r := ana depth k rest s1 in mkR (r_fall r) (r_ret r) (r_panic r) (r_err r + e)
         | TRel l => let '(s1, e) := map_states (do_rel l) sts in
                     let r := ana depth k rest s1 in mkR (r_fall r) (r_ret r) (r_panic r) (r_err r + e)
@@ -215,27 +223,50 @@ Section Ana.
     end.
 End Ana.
 
-Definition a_empty : ast := mkA HNone false [].
-Definition holds_nothing (a : ast) : bool := cc_hmu_eqb (a_mu a) HNone && negb (a_f a).
+Definition a_empty : ast := mkA HNone 0 [].
+Definition a_w : ast := mkA HW 0 [].
+Definition holds_nothing (a : ast) : bool := cc_hmu_eqb (a_mu a) HNone && Nat.eqb (a_f a) 0.
+Definition holds_as (e a : ast) : bool := cc_hmu_eqb (a_mu a) (a_mu e) && Nat.eqb (a_f a) (a_f e).
+
+(* a helper of MemMapFs: an unexported method (its name starts with a lower-case letter) without
+   an operation on mu of its own - called with mu write-locked *)
+Definition s_memmapfs_dot : str := Eval vm_compute in cc_bytes "MemMapFs."%string.
+Definition s_mu_dot : str := Eval vm_compute in cc_bytes "mu."%string.
+Fixpoint has_infix (fuel : nat) (s sub : str) : bool :=
+  match fuel with
+  | O => false
+  | S k => prefixb sub s || match s with [] => false | _ :: r => has_infix k r sub end
+  end.
+Definition is_mu_helper (kv : str * str) : bool :=
+  prefixb s_memmapfs_dot (fst kv) &&
+  match skipn 9 (fst kv) with c :: _ => N.leb 97 c && N.leb c 122 | [] => false end &&
+  negb (has_infix (S (length (snd kv))) (snd kv) s_mu_dot).
+Definition entry_state (kv : str * str) : ast := if is_mu_helper kv then a_w else a_empty.
 
 Record fn_report := mkFR { fr_name : str; fr_errs : nat; fr_ret_leaks : nat; fr_panic_leaks : nat; fr_can_panic : bool }.
 
-(* one function entered holding nothing *)
-Definition check_fn (tab : list (str * str)) (kv : str * str) : fn_report :=
-  let r := ana tab 6 400 (parse_row (snd kv)) [a_empty] in
+(* one function entered in its entry state; at most [maxnest] file mutexes at a time *)
+Definition check_fn_with (maxnest : nat) (tab : list (str * str)) (kv : str * str) : fn_report :=
+  let e := entry_state kv in
+  let r := ana tab maxnest 6 400 (parse_row (snd kv)) [e] in
   let exits := union_ast (r_fall r) (r_ret r) in
   let after := map (fun x => run_defers (a_d x) x) exits in
   let afterp := map (fun x => run_defers (a_d x) x) (r_panic r) in
   mkFR (fst kv)
        (r_err r + fold_left (fun n x => n + snd x) after 0 + fold_left (fun n x => n + snd x) afterp 0)
-       (length (filter (fun x => negb (holds_nothing (fst x))) after))
-       (length (filter (fun x => negb (holds_nothing (fst x))) afterp))
+       (length (filter (fun x => negb (holds_as e (fst x))) after))
+       (length (filter (fun x => negb (holds_as e (fst x))) afterp))
        (match r_panic r with [] => false | _ => true end).
+Definition check_fn := check_fn_with cc_max_nest.
 
 Definition fn_ok (r : fn_report) : bool :=
   Nat.eqb (fr_errs r) 0 && Nat.eqb (fr_ret_leaks r) 0 && Nat.eqb (fr_panic_leaks r) 0.
 
 Definition cc_tab_report (tab : list (str * str)) : list fn_report := map (check_fn tab) tab.
+(* the functions that do not pass when NO nesting of file mutexes is allowed: those in which a file
+   mutex is taken while another one is held *)
+Definition cc_tab_nesting (tab : list (str * str)) : list str :=
+  map fr_name (filter (fun r => negb (fn_ok r)) (map (check_fn_with 1 tab) tab)).
 Definition cc_tab_check (tab : list (str * str)) : bool := forallb fn_ok (cc_tab_report tab).
 Definition cc_tab_bad (tab : list (str * str)) : list str :=
   map fr_name (filter (fun r => negb (fn_ok r)) (cc_tab_report tab)).
